@@ -152,10 +152,10 @@ func execSign(op string, args []string) string {
 
 // ---------------------------------------------------------------- JV helpers
 
-func jvStr(s string) *JV  { return &JV{Kind: 's', Str: s} }
-func jvNum(s string) *JV  { return &JV{Kind: '#', Num: s} }
-func jvNull() *JV         { return &JV{Kind: 'n'} }
-func jvObj() *JV          { return &JV{Kind: 'o'} }
+func jvStr(s string) *JV { return &JV{Kind: 's', Str: s} }
+func jvNum(s string) *JV { return &JV{Kind: '#', Num: s} }
+func jvNull() *JV        { return &JV{Kind: 'n'} }
+func jvObj() *JV         { return &JV{Kind: 'o'} }
 func (v *JV) clone() *JV {
 	c := *v
 	c.Arr = nil
